@@ -10,6 +10,30 @@ CHECKS = {
                 technique="deterministic simulation: baton-scheduled real threads, seeded schedule search with line-level pre-emption, protocol reference model",
                 text="Seeded search over thread schedules of the real RLScheduler/env/agent exchange (two real threads, one baton; pre-emption at every queue/thread operation and every line of black_it/schedulers) for generated session/batch/loss scenarios; oracle = reference protocol + bandit model (exactly one learn per executed agent-chosen batch, right action, right reward, empty queues and no thread after each session, no deadlock within a step budget, outcome identical across schedules). Sampling, not enumeration: a clean run is evidence, not proof.",
                 note="Queue/Thread stand-ins assumed faithful to queue.Queue/threading.Thread for the operations used; pre-emption is at line granularity; the calibration loop is played by the harness."),
+    "C01": dict(engine="calsim", category="exploration", design="4/C01",
+                technique="deterministic simulation: twin executions of a real Calibrator under perturbed simulated environments (worker pool order/isolation, verbosity, folder, constructor seeds, ambient RNG, clock jumps, RL thread schedule), bitwise comparison",
+                text="Each generated configuration is executed in a baseline and in 1-3 perturbed simulated environments; histories, return values and the (theta, N, seed) sequence of model calls must be bit-identical, or both must raise the same exception type at the same point. Seeded sampling over configurations and perturbations.",
+                note="joblib.Parallel is modelled by SimParallel (lazy dispatch, pickle isolation, seeded completion order), real loky is not run; another PYTHONHASHSEED only through the runner's fresh-interpreter probe."),
+    "C02": dict(engine="calsim", category="exploration", design="4/C02",
+                technique="deterministic simulation: seam recordings (sampler returns, model dispatch/completion, loss evaluations) rebuilt into a reference history; append-only re-hash at every seam event",
+                text="Whole real calibrations (all nine samplers, both schedulers, all losses, extreme model outputs, several calibrate() calls, simulated pool with reordering) with the five history arrays compared, after every call, against a reference history rebuilt from what crossed the seams, plus recomputation of every loss by a pristine copy and re-hashing of earlier rows at every seam event.",
+                note="Oracle trusts the seam recorders (class-level wrappers) and the harness model's per-seed uniqueness; sampled configurations."),
+    "C03": dict(engine="compsim+calsim", category="exploration", design="4/C03",
+                technique="deterministic simulation: sampler op sequences (sample/append/pickle-restart/reseed) and whole calibrations with a grid-membership invariant at the sampler and model seams",
+                text="Every batch returned by any of the nine built-in samplers, over generated awkward spaces and successive calls with restarts and reseeds on the same object, must have the declared shape and consist of exact grid elements; in whole calibrations the model must only ever see on-grid vectors.",
+                note="The input quantifier (spaces, histories, options) is sampled; restart is the only fault dimension. Third-party numerical failures end a sequence and are counted."),
+    "C12": dict(engine="compsim", category="exploration", design="4/C12",
+                technique="deterministic simulation: scripted collision generator as peer, reference retry model (RefDedup) compared on request sizes and result multiset",
+                text="BaseSampler.sample() driven by a scripted generator that injects collisions (repeats of history, in-batch repeats, repeats of earlier redraws) over histories with repeats, batch sizes 1-6, budgets 0-6; request sizes, shape and the returned multiset must equal the reference retry model written from the statement.",
+                note="Which redraw replaces which repeated position is not prescribed, so results are compared as multisets; both copies of an in-batch repeat count as repeats (as the statement's request-size clause implies)."),
+    "C13": dict(engine="compsim", category="exploration", design="4/C13",
+                technique="deterministic simulation: batch/reseed/pickle-restart op sequences on one sampler with twin objects, every emitted pre-snap point compared with exact reference sequences",
+                text="Halton and R-sequence samplers of 1-40 dims driven through op sequences; every emitted point must equal the exact radical inverse (independent sieve, rational arithmetic) resp. offset+k*phi-vector mod 1 (independent 50-digit phi), start index in range and seed-determined (construct vs construct, reseed vs reseed), batches must concatenate to the twin's single batch bitwise, also across restarts; the public halton() helper is probed at carry-biased start indices.",
+                note="Pre-snap values observed at the module's digitize_data name; tolerances 1e-12 (Halton) and 1e-9 (R-sequence)."),
+    "C16": dict(engine="compsim+calsim", category="exploration", design="4/C16",
+                technique="deterministic simulation: read-only hash monitor at the sampler seam, scripted stub-surrogate peer, best-batch descent oracle on grid indices",
+                text="(a) lent history arrays hashed before/after every sample() of all nine samplers with ties/inf/float32-overflowing losses, in op sequences and whole calibrations; (b) a stub surrogate with scripted fit/predict (ties, negative, huge) must be trained on exactly the history and return the snapped batch_size lowest-prediction candidates; (c) every best-batch proposal must descend from one of the batch_size lowest-loss points by 1..range-1 grid steps.",
+                note="Ties at the selection threshold may be broken either way; clipping or snapping both count as 'confined to the space'."),
 }
 
 NOT_APPLICABLE = {
